@@ -26,7 +26,8 @@
 //! `ok v=<version> nrid=<next_row_id> mfid=<max_fragment_id|none> meta=<per fragment: id[rid.created.updated[x] …]>
 //!  scan=<ordered scan: cells…,_rowid,_row_created_at_version,_row_last_updated_at_version>` or `err <kind>`;
 //! of `deltas`: `ok <b>-<e>:i=<ids>:u=<ids> …` (`ok -` when there is no pair).  `err parse`, `err no_table`, `err width`,
-//! `err keys`, `err ambiguous` are decided by the interpreter alone, identically on both sides.
+//! `err keys`, `err ambiguous`, `err multi_insert` (two or more new keys in one upsert: the join's emission order of unmatched rows
+//! is hash-dependent) are decided by the interpreter alone, identically on both sides.
 //!
 //! Oracle (independent of the Lean model): after every step, (1) the harness's own flat replay of the history (append =
 //! add rows with fresh ids, delete = remove, update / upsert = change cells and keep the id, compaction = nothing) gives
@@ -488,10 +489,12 @@ impl Prop for C17 {
                     let w = if k == 3 && rng.chance(1, 2) { 2 } else { k };
                     let n = 1 + rng.usize(4);
                     let mut keys: Vec<i64> = vec![];
+                    let mut fresh_used = false;
                     for _ in 0..n {
-                        let key = if !t.keys.is_empty() && rng.chance(3, 5) {
+                        let key = if !t.keys.is_empty() && (rng.chance(3, 5) || (fresh_used && !malformed)) {
                             *rng.pick(&t.keys)
                         } else {
+                            fresh_used = true;
                             t.next_key += 1;
                             t.next_key
                         };
@@ -630,6 +633,10 @@ impl Prop for C17 {
                         Some("keys")
                     } else if keys.iter().any(|c| truth.values().filter(|t| t.0[0] == *c).count() > 1) {
                         Some("ambiguous")
+                    } else if keys.iter().filter(|c| !truth.values().any(|t| t.0[0] == **c)).count() > 1 {
+                        // the order in which the join emits two or more unmatched source rows (and with it which fresh
+                        // row id each gets) is hash-dependent: not part of the tie
+                        Some("multi_insert")
                     } else {
                         None
                     }
@@ -1035,7 +1042,7 @@ impl Prop for C17 {
     fn rule(&self) -> String {
         "random histories of 3-9 ops (+ a final `deltas`) on one memory:// dataset with stable row ids, 2 Int64 columns (3 for a third \
          of the cases, which also upsert with a partial source schema): create then append 22% / update-where 18% / merge_insert \
-         upsert 20% (3 in 5 keys exist) / delete 12% / compact_files 16% (target 2-8 or 1000, materialize deletions 3 in 4) / \
+         upsert 20% (3 in 5 keys exist, at most one new key) / delete 12% / compact_files 16% (target 2-8 or 1000, materialize deletions 3 in 4) / \
          overwrite 4% / deltas 4%; max_rows_per_file 1-6 or 1000, 0-10 rows per write, unique keys (duplicates in the malformed \
          stream), 4% NULL keys, 8% NULL values; 15% malformed (ops before create, f=0, t=0, wrong width, create twice, broken \
          syntax, duplicate upsert keys). Every step and every observation runs with fresh session caches. Non-trivial = at least \
